@@ -695,7 +695,7 @@ def oracle(g, obs):
         if KWARGS[k1] != KWARGS[k2] and s1 == s2 and t1 == t2 and any(rels.values()):
             res.append(("C12.key.kwargs", "kwargs %s vs %s give the same cache key (%s)" % (KWARGS[k1], KWARGS[k2], rels), "key", idx))
         if km["mode"] == "kw_order" and not all(rels.values()):
-            key = crs_key(obs, s1, s2) or crs_key(obs, t1, t2) or "C12.key.kwargs_order"
+            key = crs_key(obs, s1, s2) or crs_key(obs, t1, t2) or ("C12.key.kwargs_order" if r["geo"] else "C12.key.spelling")
             res.append((key, "the same kwargs written in another order (%s / %s) give different cache keys (%s)" % (KWARGS[k1], KWARGS[k2], rels), "key", idx))
         if km["mode"] == "same" and not all(rels.values()):
             key = crs_key(obs, s1, s2) or crs_key(obs, t1, t2) or "C12.key.spelling"
